@@ -13,7 +13,7 @@ RULE = ('every put sequence of length <= 3 (quick) / 4 (thorough) over 14 items 
         'string length field {0,-1,L-1,L+1,rest,rest+1,4096,4097,INT_MAX,INT_MIN} (thorough: combined with 5 size values), '
         'get sequences <= 3 / 4; a case is one put sequence; non-trivial = (buffer, get sequence) pairs in which the '
         'reference demanded a rejection or a type mismatch, plus accepted sequences that consumed data')
-ASSUME = ['src/ipc/TypedMsgHdr.cc of the current tree as built (ASan) for the tests/testRock link set',
+ASSUME = ['src/ipc/TypedMsgHdr.cc of the current tree as built (ASan) by the scratch tree make (ipc/TypedMsgHdr.o), linked with String.o, libbase, libcompatsquid and the tests/ stubs for debug, mem and SBuf',
           'a received datagram is modelled as the bytes of the data buffer {type, size, raw[maxSize]}; UDS datagrams arrive '
           'whole, so "truncated" means a size field smaller than what the reader asks for',
           'message objects sit in front of a 64 KB sentinel area so that reads beyond raw[] are judged by the reference '
@@ -23,7 +23,16 @@ ASSUME = ['src/ipc/TypedMsgHdr.cc of the current tree as built (ASan) for the te
 
 
 def _build(ctx):
-    return seq.build(ctx, 'tests/testRock', ['C58_msg.cc'])
+    # TypedMsgHdr needs little: link the harness with exactly the tree objects it uses (rebuilt from the
+    # current tree first) instead of a whole unit-test link set -- the build step stays at a few seconds
+    import os
+    ctx.vbuild('compat:libcompatsquid.la', 'src/base:libbase.la', 'src/ipc:TypedMsgHdr.lo',
+               'src:String.o tests/stub_debug.o tests/stub_libmem.o tests/stub_SBuf.o')
+    t = ctx.tree
+    objs = [os.path.join(t, 'src', o) for o in ('ipc/TypedMsgHdr.o', 'String.o', 'tests/stub_debug.o', 'tests/stub_libmem.o',
+                                                 'tests/stub_SBuf.o', 'base/.libs/libbase.a')]
+    objs.append(os.path.join(t, 'compat/.libs/libcompatsquid.a'))
+    return seq.build_plain(ctx, ['C58_msg.cc'], objects=objs, extra_ld=['-ldl'])
 
 
 def run(ctx):
